@@ -12,6 +12,12 @@
 //   exe+improve    same with b=true
 //   exe/count      returned count (3 for separated real roots, 1 for one real + pair)
 //   exe/improve-monotone   |p(x_refined)| <= |p(x_raw)| (+ evaluation noise)
+// A value that fails the bound gets a mechanism suffix on its stratum, so that two different defects never
+// share a key:  "<stratum>:cancellation"  when 1 was returned (single-real-root branch), the depressed form of
+// the cubic the library sees has |4p^3/27| < 0.1 q^2 (Cardano's -q +- sqrt(q^2+4p^3/27) cancels) and the error
+// is <= KCANCEL*eps^(1/3)*S (KCANCEL = 4; the mechanism yields at most ~1.3 eps^(1/3) S);  otherwise
+// "<stratum>:gross" when the error exceeds 1e-3*S (wrong sign / wrong branch errors are O(S));  otherwise
+// "<stratum>:other".
 // Accuracy demanded of a value presented as a root z_j:  |x - z_j| <= K * S * u_j with S the
 // largest root modulus and u_j = max(eps, min(eps*S^2/(g_a g_b), sqrt(eps*S/g_b), cbrt(eps)))
 // (g_a<=g_b distances from z_j to the two other roots): the first-order perturbation bound of a
@@ -26,6 +32,8 @@ static vf::Reporter R;
 
 static const L KROOT = 1000;    // safety factor on the perturbation bound
 static const L KNOISE = 64;    // evaluation noise factor for the residual comparison
+static const L KCANCEL = 4;    // a failing value is filed under ":cancellation" only if its error <= KCANCEL eps^(1/3) S
+static const L GROSS = 1e-3L;  // ... and under ":gross" if its error exceeds GROSS * S
 
 struct Truth {
   L re[3], im[3];     // the three roots (a complex pair appears as re +- i im)
@@ -271,6 +279,24 @@ static void one_case(const vf::Args& a, uint64_t idx, const char* tname) {
         .darr("root_im_dec", t.im, t.im + 3).d("S", SS).i("exact", exact);
     return j.str();
   };
+  // Cardano cancellation measure |4p^3/27|/q^2 of the cubic the library sees (long double)
+  L cm_seen = INFINITY;
+  {
+    const L b2 = cl[1] / cl[0], b1 = cl[2] / cl[0], b0 = cl[3] / cl[0];
+    const L pp = b1 - b2 * b2 / 3, qq = b0 - b2 * b1 / 3 + 2 * b2 * b2 * b2 / 27;
+    if (qq != 0) cm_seen = std::fabs(4 * pp * pp * pp / 27) / (qq * qq);
+  }
+  char Sbuf[96];
+  // stratum under which a judged value is filed: unchanged when it passes, mechanism suffix when it fails
+  auto filed = [&](L ratio, L abs_err, int nret) -> const char* {
+    if (ratio <= 1) return S;
+    const char* suffix = "other";
+    if (nret == 1 && cm_seen < 0.1L && abs_err <= KCANCEL * std::cbrt(eps) * SS) suffix = "cancellation";
+    else if (!(abs_err <= GROSS * SS)) suffix = "gross";
+    std::snprintf(Sbuf, sizeof Sbuf, "%s:%s", S, suffix);
+    return Sbuf;
+  };
+  auto dist_abs = [&](L x, int j) { return std::hypot(x - t.re[j], t.im[j]); };
   T xa[3] = {T(0), T(0), T(0)}, xb[3] = {T(0), T(0), T(0)};
   vf::set_case("exe", S, idx);
   const unsigned short na = tfel::math::CubicRoots::exe(xa[0], xa[1], xa[2], c[0], c[1], c[2], c[3], false);
@@ -286,31 +312,32 @@ static void one_case(const vf::Args& a, uint64_t idx, const char* tname) {
     if (n != 1 && n != 3) continue;
     // ---- values
     const char* api = pass ? "exe+improve" : "exe";
-    L ratio = 0;
+    L ratio = 0, abs_err = 0;  // abs_err: the distance that goes with the worst ratio
     if (n == 3) {
       // every presented value is near a true root (complex distance), every true root is represented
       for (int i = 0; i < 3; ++i) {
-        L best = INFINITY;
-        for (int j = 0; j < 3; ++j) best = std::min(best, dist_ratio(L(x[i]), j));
-        if (!(best == best)) best = INFINITY;
-        ratio = std::max(ratio, best);
+        L best = INFINITY, bd = INFINITY;
+        for (int j = 0; j < 3; ++j) { const L r = dist_ratio(L(x[i]), j); if (r < best) { best = r; bd = dist_abs(L(x[i]), j); } }
+        if (!(best == best)) { best = INFINITY; bd = INFINITY; }
+        if (best >= ratio) { ratio = best; abs_err = bd; }
       }
       // completeness ("3 together with the three roots") is only stated for well-separated real roots
       for (int j = 0; j < 3 && t.expect == 3; ++j) {
-        L best = INFINITY;
-        for (int i = 0; i < 3; ++i) best = std::min(best, dist_ratio(L(x[i]), j));
-        if (!(best == best)) best = INFINITY;
-        ratio = std::max(ratio, best);
+        L best = INFINITY, bd = INFINITY;
+        for (int i = 0; i < 3; ++i) { const L r = dist_ratio(L(x[i]), j); if (r < best) { best = r; bd = dist_abs(L(x[i]), j); } }
+        if (!(best == best)) { best = INFINITY; bd = INFINITY; }
+        if (best >= ratio) { ratio = best; abs_err = bd; }
       }
-      R.check(api, S, idx, h, ratio, 1, dump, t.expect == 3 ? "3 returned: each value must be a root and each of the separated roots must be returned" : "3 returned: each value must be a root");
+      R.check(api, filed(ratio, abs_err, 3), idx, h, ratio, 1, dump, t.expect == 3 ? "3 returned: each value must be a root and each of the separated roots must be returned" : "3 returned: each value must be a root");
     } else {
       // one real root announced: a true real root must be among the returned values
-      L best = INFINITY;
+      L best = INFINITY, bd = INFINITY;
       for (int j = 0; j < 3; ++j) {
         if (t.im[j] != 0) continue;
-        for (int i = 0; i < 3; ++i) { const L r = dist_ratio(L(x[i]), j); if (r < best) best = r; }
+        for (int i = 0; i < 3; ++i) { const L r = dist_ratio(L(x[i]), j); if (r < best) { best = r; bd = dist_abs(L(x[i]), j); } }
       }
-      R.check(api, S, idx, h, best, 1, dump, "1 returned: the real root must be among the returned values");
+      if (!(best == best)) { best = INFINITY; bd = INFINITY; }
+      R.check(api, filed(best, bd, 1), idx, h, best, 1, dump, "1 returned: the real root must be among the returned values");
     }
   }
   // ---- refinement never increases |p(x)| (on the values presented as roots)
